@@ -20,7 +20,7 @@ m = {
     },
     "engines": [{
         "name": "symx", "path": "/verif/engine",
-        "serves_properties": sorted(checks.CHECKS.keys()),
+        "serves_properties": sorted(k for k in checks.CHECKS.keys() if k.startswith("C")),
         "kind_free_text": "symbolic executor for Go SSA (fork of x/tools go/ssa/interp v0.29.0 with symbolic scalars, Int+explicit-wrap SMT encoding, z3 4.8.12 via one long-lived `z3 -in` per worker, path exploration by re-execution with decision prefixes, native replay of counterexamples)",
     }],
     "checks": [],
